@@ -119,7 +119,7 @@ def prove(ctx, spec):
                 ctx.obligation_failures.append({"kind": "forbidden-token", "detail": f"{path}:{ln}: {line.strip()}"})
     # theorem names
     propsrc = "\n".join(strip_comments(open(files[m_]).read()) for m_ in mods if m_ in files)
-    names = re.findall(r"^\s*theorem\s+(" + ctx.pid + r"_\w+)", propsrc, re.M)
+    names = re.findall(r"^\s*theorem\s+(" + spec.get("theorem_prefix", ctx.pid) + r"_\w+)", propsrc, re.M)
     expected = spec.get("theorems")
     if expected:
         for t in expected:
